@@ -174,6 +174,20 @@ func Execute(texts []string, names []string, useFiles bool) (outcome string, err
 	for _, e := range errs {
 		errClasses = append(errClasses, classify(e.Error()))
 	}
+	// The syntax trees of the accepted texts are there whatever Process said: the
+	// node-level lookups work on them alone.
+	for _, mm := range []map[string]*yang.Module{ms.Modules, ms.SubModules} {
+		for _, m := range mm {
+			yang.ChildNode(m, "nosuchchild")
+			yang.FindNode(m, "/"+m.GetPrefix()+":nosuch/child")
+			yang.FindNode(m, "nosuch")
+			yang.NodePath(m)
+			for _, u := range m.Uses {
+				yang.ChildNode(u, "x")
+				yang.FindNode(u, "../"+u.Name)
+			}
+		}
+	}
 	if len(errs) > 0 {
 		if !loadedAny {
 			return "load-error", errClasses
@@ -184,6 +198,33 @@ func Execute(texts []string, names []string, useFiles bool) (outcome string, err
 		for _, m := range mm {
 			root := yang.ToEntry(m)
 			root.GetErrors()
+			// entries that stand alone: the deviations of the module and what hangs below them
+			for _, d := range root.Deviations {
+				var ds []*yang.Entry
+				ds = append(ds, d.Entry)
+				for _, l := range d.Deviate {
+					ds = append(ds, l...)
+				}
+				for _, x := range ds {
+					x.Path()
+					x.Namespace()
+					x.InstantiatingModule()
+					x.ReadOnly()
+					x.GetErrors()
+					x.DefaultValues()
+					x.Modules()
+					x.Find("/" + m.GetPrefix() + ":x")
+					x.Find(d.Name)
+					x.Find("..")
+					var b bytes.Buffer
+					x.Print(&b)
+				}
+			}
+			for _, a := range root.Augmented {
+				a.Path()
+				a.InstantiatingModule()
+				a.Find("/" + m.GetPrefix() + ":x")
+			}
 			walk(root, func(e *yang.Entry) {
 				e.Namespace()
 				e.InstantiatingModule()
@@ -402,6 +443,13 @@ var layoutHazards = []string{
 	`module m { %H include s { revision-date %V; } uses sg; leaf l { type st; } } submodule s { belongs-to m { prefix m; } revision 2019-01-01; typedef st { type int8; } grouping sg { leaf old { type st; } } } submodule s { belongs-to m { prefix m; } revision 2020-01-01; typedef st { type string; } grouping sg { leaf new { type st; } } }`,
 	`module m { %H revision 2020-01-01; augment /x:c { leaf a { type string; } } import x { prefix x; } deviation /x:c/x:d { deviate %D; } } module m { %H revision 2021-01-01; import x { prefix x; } augment /x:c { leaf a { type string; } } } module x { namespace "urn:x"; prefix x; container c { leaf d { type string; } } }`,
 	`module m { %H include m; } submodule m { belongs-to m { prefix m; } leaf l { type %T; } }`,
+	// module names that are paths (the loader looks for modules as files), in imports, includes
+	// and revision dates
+	`module m { %H import "/dev/zero" { prefix z; } }`, `module m { %H include "../../../../../../dev/zero"; }`, `module m { %H import n { prefix n; revision-date "/../../../../../dev/zero"; } }`,
+	`module m { %H import "/proc/self/environ" { prefix z; } leaf l { type z:t; } }`, `submodule s { belongs-to "/dev/zero" { prefix z; } leaf l { type z:t; } }`,
+	// many uses of groupings that cannot be found (every one is followed by every lookup)
+	`module m { %H uses g0; uses g1; uses g2; uses g3; uses g4; uses g5; uses g6; uses g7; uses g8; uses g9; uses g10; uses g11; uses g12; uses g13; grouping real { leaf in { type string; } } uses real; }`,
+	`module m { %H import n { prefix n; } uses n:g0; uses n:g1; uses n:g2; uses n:g3; uses n:g4; uses n:g5; uses n:g6; uses n:g7; uses n:g8; uses n:g9; uses n:g10; uses n:g11; } module n { namespace "urn:n"; prefix n; grouping g0 { uses g1; uses g2; uses g3; uses nope; } grouping g1 { uses g0; uses g2; uses g3; } grouping g2 { uses g3; } }`,
 	// deviations of properties the target has only by inheritance (a default or units that come
 	// from its typedef), of leaf-lists with several defaults, of rpc input/output and of choices
 	`module m { %H typedef td { type %T; default %A; units u; } leaf l { type td; } leaf-list ll { type td; default a; default b; } deviation /m:l { deviate %D { default %A; units %A; } } deviation /m:ll { deviate %D { default a; } } }`,
